@@ -9,7 +9,7 @@ Oracle : 15-line reference join over the branch traces: iterate source events, w
          tuple(latest) when every branch has produced since the last tuple; combine_latest stores and
          emits tuple(latest) with None for branches that have not produced in this lifetime.
 """
-from ..common import Check, Outcome, bootstrap, norm, with_prelude, prelude_tags, shrink_prelude, PRELUDE_TAGS
+from ..common import Check, Outcome, bootstrap, norm, with_prelude, prelude_tags, shrink_prelude, PRELUDE_TAGS, PRELUDE_RULE
 from .. import gen, progs, model
 from ..muxmon import lifetimes
 
@@ -44,6 +44,7 @@ class C08(Check):
             'tee_map in keyed modes -, join in zip/merge/combine_latest, mode: plain observable, one multiplexed key, or keyed under group_by / roll (w != s, w == s) / split / '
             'time_split where the join slots are reused by successive key lifetimes; input 0..30 ints; every 60th case 140-300 interleaved groups with branches of different rates on 900-1500 items). Branches are re-run separately in the same mode with a Subject-driven '
             'source to get their (event index, value) traces. non-trivial = the branches emit different numbers of items; distinct = hash of the case')
+    RULE += PRELUDE_RULE
     ASSUMPTIONS = ['branches never contain a streaming scan that mutates and re-emits its accumulator object (the join legitimately holds that object, later mutations show through; snapshots cannot express it)',
                    'each mode is compared with branches run in the SAME mode, so early completion after take/first on plain observables is part of the reference',
                    'branch programs whose standalone run errors (mean(reduce) on an empty key ...) are discarded']
